@@ -47,7 +47,7 @@ COMPONENTS = {
 PROBES = [
     "chunked_on_after_passing_break", "next_chunk_at_end_of_data", "mode_toggle_with_cached_break",
     "slice_of_slice", "slice_in_chunked_parent", "overread_inside_integer_at_break",
-    "two_reader_threads_interleaved", "length_of_a_subclass_type", "next_chunk_outside_chunked_mode", "slice_negative_argument", "next_chunk_moves_backwards",
+    "returned_array_looked_at_again", "two_reader_threads_interleaved", "length_of_a_subclass_type", "next_chunk_outside_chunked_mode", "slice_negative_argument", "next_chunk_moves_backwards",
     "exhausted_read",
 ]
 FAULT_KINDS = ["preemption_between_lines", "end_of_chunk_mid_read", "end_of_data_mid_read"]
@@ -183,6 +183,7 @@ def execute(plan, env):
            "window": lambda b: memoryview(b"\x01\xff\x02" + b + b"\x03\xff\x04\xff")[3:3 + len(b)]}[plan.get("buffer", "bytes")](data)
     res.count("buffer_" + plan.get("buffer", "bytes"))
     pool = [(EoReader(buf), ReaderModel(data), 0)]  # real, model, slice depth
+    kept = []       # mutable results handed out earlier: (object, its content when handed out, step, operation)
 
     def fail(kind, op, mode, detail, step):
         res.violation = {
@@ -296,6 +297,7 @@ def execute(plan, env):
                 else:
                     got = getattr(r, name)(*args)
                 if isinstance(got, (bytearray, memoryview)):
+                    kept.append((got, bytes(got), step, name))        # the caller keeps what it was given
                     got = bytes(got)
             except Exception as e:
                 got_exc = type(e).__name__
@@ -314,6 +316,13 @@ def execute(plan, env):
         check_all(step, name)
         if res.violation:
             break
+    if res.violation is None:
+        for obj, was, at, opname in kept:
+            res.count("probe.returned_array_looked_at_again")
+            if bytes(obj) != was:
+                fail("value", opname + "-retained", False, f"the array returned by {opname} at step {at} held {was.hex()[:60]}; after the later "
+                     f"operations it holds {bytes(obj).hex()[:60]}", at)
+                break
     if plan.get("interleave") and res.violation is None:
         v = concurrent_readers(plan, EoReader, res, tr)
         if v:
